@@ -1,6 +1,6 @@
 SPECIFICATION Spec
 CONSTANTS
-  MaxPoints = 4
+  MaxPoints = 3
   MaxRank = 3
 INVARIANT Emit
 CHECK_DEADLOCK FALSE
